@@ -63,3 +63,6 @@ Require Import RP.Glue.Wire RP.Glue.StreamLink RP.Glue.StreamProto RP.Lemmas.Glu
 Theorem C18_checker_accepts_model : forall case own cap k multi p t gs ans,
   exc_split case = Some (own, cap, k, multi, p, t, gs, ans) -> ok_C18 case (run_EXC case) = [].
 Proof. exact ok_C18_accepts_model. Qed.
+(* ... and of every exchange made on a protocol object with a history (PRO stream: the exchange is compared with the model on the table rebuilt from returned ids) *)
+Theorem C18_history_checker_accepts_model : forall case own ops, pro_split case = Some (own, ops) -> ok_C18_PRO case (run_PRO case) = [].
+Proof. exact ok_C18_PRO_accepts_model. Qed.
